@@ -1,1 +1,69 @@
-//! shared helpers of this crate's checks
+//! vx-robust: C05 — untrusted input never makes a reader panic, abort or hang.
+//! Decided for three bounded, exhaustively enumerated families (DESIGN.md section 3, C05).
+
+pub mod acc;
+pub mod edits;
+pub mod eps;
+pub mod iso;
+pub mod pixobj;
+pub mod shorts;
+pub mod words;
+
+use acc::Ctx;
+
+/// (canonical name, per-index runner) of a worker family
+pub fn resolve(name: &str) -> Option<(&'static str, iso::RunCase)> {
+    Some(match name {
+        "words" => ("words", words::run as iso::RunCase),
+        "edits" => ("edits", edits::run),
+        "shorts" => ("shorts", shorts::run_shorts),
+        "pixel" => ("pixel", shorts::run_pixel),
+        "json" => ("json", shorts::run_json),
+        "strings" => ("strings", shorts::run_strings),
+        _ => return None,
+    })
+}
+
+/// Build the universe of a family before the address-space cap is applied.
+pub fn warm(name: &str, thorough: bool) {
+    match name {
+        "words" => {
+            words::universe(thorough);
+        }
+        "edits" => {
+            edits::universe(thorough);
+        }
+        "pixel" => shorts::warm_pixel(),
+        "json" => {
+            shorts::json_uni(thorough);
+        }
+        "strings" => {
+            shorts::strings(thorough);
+        }
+        _ => {}
+    }
+}
+
+pub fn family_size(name: &str, thorough: bool) -> u64 {
+    match name {
+        "words" => words::universe(thorough).size(),
+        "edits" => edits::universe(thorough).size(),
+        "shorts" => shorts::shorts_size(thorough),
+        "pixel" => shorts::pixel_size(),
+        "json" => shorts::json_uni(thorough).size(),
+        "strings" => shorts::strings(thorough).size(),
+        _ => 0,
+    }
+}
+
+/// Run indices lo..hi of a family in this process (cheap textual families).
+pub fn run_in_process(name: &str, thorough: bool, only: Option<String>, lo: u64, hi: u64) -> Ctx {
+    let (n, run) = resolve(name).expect("family");
+    let mut cx = Ctx::new(n, thorough);
+    cx.only = only;
+    for idx in lo..hi {
+        cx.begin(idx);
+        run(&mut cx, idx);
+    }
+    cx
+}
